@@ -20,7 +20,12 @@
 //                              FLUB = format(..).sendToFile("/dev/full").sendToFile(p1)
 //              the k-th file sink in depth-first order writes <dir>/s<k>.log
 //     end    : fatal | kill
-//     thread : main (everything from the main thread) | sec (second half of the messages and the
+//              | N a null HandlerPtr entry (appended through the initializer-list overload)
+//              | S a FunctionHandler that sleeps 2 s when called from a thread other than the main thread
+//     msgs   : additionally z<size> = a message logged while the device rejects writes (RLIMIT_FSIZE 0) after a flush
+//     thread : busy (the last preceding message comes from a helper thread and is held inside the logger by an S
+//              handler while the main thread raises the fatal message)
+//              | main (everything from the main thread) | sec (second half of the messages and the
 //              fatal message / the kill from a secondary thread) | qt (same, from a QThread)
 //     msgs   : - or comma separated <t><size>[*<count>], t in d w c i, or m = "diwc"[id % 4]; fatalsize = bytes of the fatal text
 // message i has the text "<i>:" padded with the letter 'a' + i % 26 to <size> bytes.
@@ -51,6 +56,19 @@ static void emit_msg(int id, const Msg &m)
 {
     const std::string s = text_of(id, m.size);
     char t = m.t == 'm' ? "diwc"[id % 4] : m.t;
+    if (t == 'z') {
+        // transient write fault: everything buffered goes out first, then the device rejects writes
+        // (file size limit 0, SIGXFSZ ignored: write(2) fails with EFBIG) while this one message is logged
+        gQtLogger.flush();
+        struct rlimit saved, tight;
+        getrlimit(RLIMIT_FSIZE, &saved);
+        tight = saved;
+        tight.rlim_cur = 0;
+        setrlimit(RLIMIT_FSIZE, &tight);
+        qInfo("%s", s.c_str());
+        setrlimit(RLIMIT_FSIZE, &saved);
+        return;
+    }
     switch (t) {
     case 'd': qDebug("%s", s.c_str()); break;
     case 'w': qWarning("%s", s.c_str()); break;
@@ -64,6 +82,7 @@ int main(int argc, char **argv)
         return 2;
     struct rlimit rl = { 0, 0 };
     setrlimit(RLIMIT_CORE, &rl);
+    signal(SIGXFSZ, SIG_IGN);
     QCoreApplication app(argc, argv);
     const QString dir = QString::fromLocal8Bit(argv[1]);
     const std::string tree = argv[2], end = argv[3], thr = argv[4], ms = argv[5];
@@ -112,6 +131,17 @@ int main(int argc, char **argv)
             case 'R': cur->append(RotatingFileSinkPtr::create(path(), big, 0)); break;
             case 'r': cur->append(RotatingFileSinkPtr::create(path(), 65536, 0)); break;
             case 'D': cur->append(RotatingFileSinkPtr::create(path(), 0, 0, RotatingFileSink::RotationDaily)); break;
+            case 'N': { // a null entry: append(initializer_list) and Pipeline({..}) accept it, process() skips it
+                std::initializer_list<HandlerPtr> il = { HandlerPtr() };
+                cur->append(il);
+                break;
+            }
+            case 'S': // a slow handler: sleeps 2 s inside the logger (mutex held) when called from a non-main thread
+                cur->append(FunctionHandlerPtr::create([](LogMessage &) {
+                    if (QThread::currentThread() != qApp->thread()) QThread::msleep(2000);
+                    return true;
+                }));
+                break;
             case 'B': nsink++; cur->append(FileSinkPtr::create(QStringLiteral("/dev/full"))); break;
             case 'g': cur->append(FunctionFilterPtr::create([](const LogMessage &m) { return m.type() == QtDebugMsg; })); break;
             case 'n': cur->append(FunctionFilterPtr::create([](const LogMessage &m) { return m.type() != QtFatalMsg; })); break;
@@ -160,6 +190,14 @@ int main(int argc, char **argv)
     if (thr == "main") {
         for (int i = 0; i < k; i++) emit_msg(i, msgs[i]);
         finish();
+    } else if (thr == "busy") {
+        // the last preceding message is logged by a helper thread (an S handler keeps it inside the logger,
+        // holding the logger's mutex, for 2 s); 300 ms later the main thread raises the fatal message
+        for (int i = 0; i + 1 < k; i++) emit_msg(i, msgs[i]);
+        std::thread helper([&]() { if (k > 0) emit_msg(k - 1, msgs[k - 1]); });
+        QThread::msleep(300);
+        finish();
+        helper.join();
     } else {
         const int half = k / 2;
         for (int i = 0; i < half; i++) emit_msg(i, msgs[i]);
